@@ -7,9 +7,9 @@ import DmrVerif.Lemmas.TranslTrellis
 
 All fourteen definitions (ten stages, `decode` / `decode(as_bytes=True)`, `encode(bitarray)` / `encode(bytes)`) are regenerated
 from `inspect.getsource` on every run and validated differentially (`t.tr.*`).  Proved here: the tables written in the source
-are the tables of `Gen/Trellis.lean` the C10 theorems are about (`tables_eq`), and the stage equalities listed below; the
-remaining stages are NOT yet proved equal to `Model/Trellis.lean` (see TRANSL_NOTES.md) — for them the chain still goes
-through the hand-written model and its correspondence run, as before.  The `example`s evaluate the translated `encode` /
+are the tables of `Gen/Trellis.lean` the C10 theorems are about (`tables_eq`), ALL ten stage equalities and the four entry
+points against `Model/Trellis.lean` for all inputs (hypotheses: items of dibit arrays fit `array('b')`, lengths below 2^53
+where the code goes through a float division), and the property itself restated on the translated functions only.  The `example`s evaluate the translated `encode` /
 `decode` in the kernel on a vector computed with the real code.
 -/
 
@@ -38,6 +38,127 @@ not in the reverse table included; no `OverflowError` of `array('b')` is reachab
 theorem points_to_dibits_eq (ps : List Nat) :
     points_to_dibits (ps.map (fun x : Nat => (x : Int))) = Transl.Trellis.ofR id (Trellis.pointsToDibits ps) :=
   Transl.Trellis.points_to_dibits_eq ps
+
+/-- `tribits_to_points`, every array of naturals: the model's `tribitsToPoints`, `IndexError` of the table read included -/
+theorem tribits_to_points_eq (ts : List Nat) :
+    tribits_to_points (ts.map (fun x : Nat => (x : Int)))
+      = Transl.Trellis.ofR (List.map (fun x : Nat => (x : Int))) (Trellis.tribitsToPoints ts) :=
+  Transl.Trellis.tribits_to_points_eq ts
+
+/-- `interleave`, every array whose items fit `array('b')` (`isChars`: what an array of dibits can hold): the model's
+`interleave`, `IndexError` for a short array included -/
+theorem interleave_eq (d : List Int) (hd : Transl.Trellis.isChars d) :
+    Transl.Trellis.interleave d = Transl.Trellis.ofR id (Trellis.interleave d) :=
+  Transl.Trellis.interleave_eq d hd
+
+/-- `deinterleave`, likewise (`IndexError`s of a short input / a matrix entry beyond the output included) -/
+theorem deinterleave_eq (d : List Int) (hd : Transl.Trellis.isChars d) :
+    Transl.Trellis.deinterleave d = Transl.Trellis.ofR id (Trellis.deinterleave d) :=
+  Transl.Trellis.deinterleave_eq d hd
+
+/-- `dibits_to_bits`, every array: the model's `dibitsToBits`, `KeyError` included -/
+theorem dibits_to_bits_eq (ds : List Int) : dibits_to_bits ds = Transl.Trellis.ofR id (Trellis.dibitsToBits ds) :=
+  Transl.Trellis.dibits_to_bits_eq ds
+
+/-- `encode(bitarray)`, EVERY bit string (`AssertionError` below 144 bits, only the first 144 bits are used): the model's
+`encode` -/
+theorem encode_eq (b : Bits) : Transl.Trellis.encode b = Transl.Trellis.ofR id (Trellis.encode b) :=
+  Transl.Trellis.encode_eq b
+
+/-- `encode(bytes)`, every byte string: the model's `encodeBytes` -/
+theorem encode_bytes_eq (d : Bytes) : Transl.Trellis.encode_bytes d = Transl.Trellis.ofR id (Trellis.encodeBytes d) :=
+  Transl.Trellis.encode_bytes_eq d
+
+/-- `bits_to_dibits`, every bit string shorter than 2^53 bits (`int(len / 2)` goes through a float): the model's
+`bitsToDibits`, `IndexError` for an odd length included -/
+theorem bits_to_dibits_eq (s : Bits) (hs : s.length < 2 ^ 53) :
+    bits_to_dibits s = Transl.Trellis.ofR id (Trellis.bitsToDibits s) :=
+  Transl.Trellis.bits_to_dibits_eq s hs
+
+/-- `dibits_to_points`, every array shorter than 2^53 items: the model's `dibitsToPoints` (`KeyError`, `IndexError`) -/
+theorem dibits_to_points_eq (d : List Int) (hd : d.length < 2 ^ 53) :
+    dibits_to_points d = Transl.Trellis.ofR (List.map (fun x : Nat => (x : Int))) (Trellis.dibitsToPoints d) :=
+  Transl.Trellis.dibits_to_points_eq d hd
+
+/-- `points_to_tribits`, every array of naturals: the model's `pointsToTribits` — 49 passes of the nested loop from state 0,
+`AssertionError` for a point outside the row of the current state, `IndexError` for a short array -/
+theorem points_to_tribits_eq (ps : List Nat) :
+    points_to_tribits (ps.map (fun x : Nat => (x : Int)))
+      = Transl.Trellis.ofR (List.map (fun x : Nat => (x : Int))) (Trellis.pointsToTribits ps) :=
+  Transl.Trellis.points_to_tribits_eq ps
+
+/-- `tribits_to_bits`, every array of naturals: the model's `tribitsToBits` (`AssertionError` unless 49 tribits) -/
+theorem tribits_to_bits_eq (ts : List Nat) :
+    tribits_to_bits (ts.map (fun x : Nat => (x : Int))) = Transl.Trellis.ofR id (Trellis.tribitsToBits ts) :=
+  Transl.Trellis.tribits_to_bits_eq ts
+
+/-- `decode(encoded)` (`as_bytes=False`), EVERY bit string: the model's `decode` -/
+theorem decode_eq (e : Bits) : Transl.Trellis.decode e = Transl.Trellis.ofR id (Trellis.decode e) :=
+  Transl.Trellis.decode_eq e
+
+/-- `decode(encoded, as_bytes=True)`, every bit string: the model's `decodeAsBytes` -/
+theorem decode_as_bytes_eq (e : Bits) :
+    Transl.Trellis.decode_as_bytes e = Transl.Trellis.ofR id (Trellis.decodeAsBytes e) :=
+  Transl.Trellis.decode_as_bytes_eq e
+
+/-! ## the property, stated on the translated source only -/
+
+/-- LOSSLESS: for every 144-bit block the translated `encode` returns a 196-bit stream (no exception) and the translated
+`decode` of that stream returns the block -/
+theorem transl_decode_encode (b : Bits) (h : b.length = 144) :
+    ∃ s, Transl.Trellis.encode b = .ok s ∧ s.length = 196 ∧ Transl.Trellis.decode s = .ok b := by
+  obtain ⟨s, hs, hl⟩ := C10.encode_length b h
+  have hd := C10.decode_encode b h
+  rw [hs] at hd
+  refine ⟨s, by rw [encode_eq, hs]; rfl, hl, ?_⟩
+  rw [decode_eq]
+  have : Trellis.decode s = .ok b := hd
+  rw [this]; rfl
+
+/-- the same through the bytes forms: 18 octets → `encode(bytes)` → `decode(…, as_bytes=True)` gives the 18 octets back -/
+theorem transl_decode_encode_bytes (bs : Bytes) (h : bs.length = 18) (hb : ∀ x ∈ bs, x < 256) :
+    ∃ s, Transl.Trellis.encode_bytes bs = .ok s ∧ s.length = 196 ∧ Transl.Trellis.decode_as_bytes s = .ok bs := by
+  have hd := C10.decode_encode_bytes bs h hb
+  cases he : Trellis.encodeBytes bs with
+  | error x => rw [he] at hd; cases hd
+  | ok s =>
+    rw [he] at hd
+    have hd' : Trellis.decodeAsBytes s = .ok bs := hd
+    have hl : s.length = 196 := by
+      have hdec : Trellis.decodeAsBytes s = (Trellis.decode s).map bitsToBytes := (C10.bytes_bits_agree bs s).2
+      by_cases hq : s.length = 196
+      · exact hq
+      · have := (C10.length_asserts s s).2 hq
+        rw [hdec, this] at hd'
+        cases hd'
+    refine ⟨s, by rw [encode_bytes_eq, he]; rfl, hl, ?_⟩
+    rw [decode_as_bytes_eq, hd']; rfl
+
+/-- a longer argument is coded as its first 144 bits, a shorter one and a stream that is not 196 bits long are refused with
+`AssertionError` — on the translated source -/
+theorem transl_length_asserts (b s : Bits) :
+    (b.length < 144 → Transl.Trellis.encode b = .error .assertion) ∧
+    (s.length ≠ 196 → Transl.Trellis.decode s = .error .assertion) := by
+  obtain ⟨h1, h2⟩ := C10.length_asserts b s
+  exact ⟨fun h => by rw [encode_eq, h1 h]; rfl, fun h => by rw [decode_eq, h2 h]; rfl⟩
+
+/-- REJECTION: a received stream whose `i`-th constellation point is not one of the eight points the encoder can emit from
+the state the decoder has reached there is refused by the translated `decode` with `AssertionError` — at each of the 49
+positions (`C10.reject_unreachable`; the points / state / row are those of the model, which the stage equalities identify with
+what the translated stages compute) -/
+theorem transl_reject_unreachable (s : Bits) (pts : List Nat) (hp : Trellis.streamPoints s = .ok pts)
+    (i : Nat) (hi : i < 49) (st p : Nat) (row : List Nat)
+    (hst : Trellis.stateBefore pts i = .ok st) (hpi : pts[i]? = some p)
+    (hrow : Trellis.rowOf st = .ok row) (hnot : p ∉ row) :
+    Transl.Trellis.decode s = .error .assertion := by
+  rw [decode_eq, C10.reject_unreachable s pts hp i hi st p row hst hpi hrow hnot]; rfl
+
+/-- the same at the translated stage function: `points_to_tribits` of ANY array of naturals with such a point -/
+theorem transl_reject_unreachable_points (pts : List Nat) (i : Nat) (hi : i < 49) (st p : Nat)
+    (row : List Nat) (hst : Trellis.stateBefore pts i = .ok st) (hpi : pts[i]? = some p)
+    (hrow : Trellis.rowOf st = .ok row) (hnot : p ∉ row) :
+    points_to_tribits (pts.map (fun x : Nat => (x : Int))) = .error .assertion := by
+  rw [points_to_tribits_eq, C10.reject_unreachable_points pts i hi st p row hst hpi hrow hnot]; rfl
 
 /-! ## non-vacuity / pin: a random 144-bit block, its code word computed with the real `Trellis34.encode`, the round trip,
 and a single inverted bit of the code word that the translated `decode` rejects like the real one (`AssertionError`) -/
